@@ -259,6 +259,9 @@ func getLSAsv2(num uint32, data []byte) ([]LSA, error) {
 	var i uint32 = 0
 	var offset uint32 = 0
 	for ; i < num; i++ {
+		if uint64(len(data)) < uint64(offset)+20 {
+			return nil, fmt.Errorf("Link State header %d exceeds packet size", i)
+		}
 		lstype := uint16(data[offset+3])
 		lsalength := binary.BigEndian.Uint16(data[offset+18 : offset+20])
 		content, err := extractLSAInformation(lstype, lsalength, data[offset:])
@@ -454,6 +457,9 @@ func getLSAs(num uint32, data []byte) ([]LSA, error) {
 	var i uint32 = 0
 	var offset uint32 = 0
 	for ; i < num; i++ {
+		if uint64(len(data)) < uint64(offset)+20 {
+			return nil, fmt.Errorf("Link State header %d exceeds packet size", i)
+		}
 		var content interface{}
 		lstype := binary.BigEndian.Uint16(data[offset+2 : offset+4])
 		lsalength := binary.BigEndian.Uint16(data[offset+18 : offset+20])
